@@ -284,9 +284,10 @@ impl Runtime {
 
     pub(crate) fn set_cancellation_flag(&self) {
         crate::tracing::trace!("set_cancellation_flag");
-        self.revision_cancelled.store(true, Ordering::Release);
+        // logged before the store: a reader that observes the flag logs its unwind after this line
         #[cfg(salsa_verif)]
         crate::verif_trace::emit_with("cancel", "set_flag", |_, _| {});
+        self.revision_cancelled.store(true, Ordering::Release);
     }
 
     pub(crate) fn reset_cancellation_flag(&self) {
